@@ -135,8 +135,10 @@ class TC(fm.TimeComponent):
         for o in range(self.nout):
             self.outputs[f"Out{o}"].push_data(self.value(nt) + 0.5 * o + extra, nt)
         if getattr(self.tr, "all_outputs", None) is not None:
-            # retained history length of every output after this update (C01 network correspondence)
-            self.tr.events.append(("ret", self.idx, [len(x.data) for x in self.tr.all_outputs]))
+            # retained history length of every output (and of every push-based adapter's buffer) after this update
+            # (C01 network correspondence)
+            self.tr.events.append(("ret", self.idx, [len(x.data) for x in self.tr.all_outputs]
+                                   + [len(a.data) for a in getattr(self.tr, "cache_adapters", [])]))
         self.tr.current = None
 
     def _finalize(self):
@@ -308,6 +310,13 @@ def build(spec, mem_limit=None, mem_location=None):
     for li, out, ads, inp in link_objs:
         for ai, a in enumerate(ads):
             wrap(a, ("ad", li, ai))
+    if spec.get("record_retained"):
+        # buffers of push-based adapters, in link order (at most one per link in the specs that use this)
+        trace.cache_adapters = []
+        for li, out, ads, inp in sorted(link_objs, key=lambda x: x[0]):
+            for a, desc in zip(ads, spec["links"][li]["ads"]):
+                if desc[0] in CACHE:
+                    trace.cache_adapters.append(a)
     fin_count = {}
     for a in adapters:
         orig = a.finalize
@@ -455,4 +464,49 @@ def net_request(spec, fuel=4000):
         ep.append([pos[l["dst"]], j, neps[gi]])
         neps[gi] += 1
     req["hist"], req["neps"], req["ep"] = hist, neps, ep
+    return req, order
+
+
+def netc_request(spec, fuel=4000):
+    """the Lean network model with push-based adapters as relay nodes (op netc_run).  Chains (source -> consumer):
+    Scale* [one push-based adapter] (Scale | DelayFixed)*"""
+    req, order = model_request(spec, fuel)
+    req = dict(req)
+    req["op"] = "netc_run"
+    nin, nout, out_index = layout(spec)
+    pos = {c: i for i, c in enumerate(order)}
+    starts = [c["start"] for c in spec["comps"] if c["kind"] == "time"]
+    t0 = min(starts) if starts else 0
+    nodes_hist = [None] * len(out_index)
+    for (c, o), gi in out_index.items():
+        p = spec["comps"][c]["start"]
+        nodes_hist[gi] = [t0, p] if p != t0 else [p]
+    neps = [0] * len(out_index)
+    last = [[] for _ in out_index]
+    links, relays = [], []
+    jcount = {}
+    for l in spec["links"]:
+        gi = out_index[(l["src"], l["out"])]
+        j = jcount.get(l["dst"], 0)
+        jcount[l["dst"]] = j + 1
+        if any(a[0] in CACHE for a in l["ads"]):
+            r = len(nodes_hist)
+            nodes_hist.append(list(nodes_hist[gi]))   # the buffer holds one entry per initial publication
+            neps.append(1)
+            last.append([None])
+            relays.append([r, gi, neps[gi]])
+            neps[gi] += 1
+            last[gi].append(nodes_hist[gi][-1])        # the adapter pulled at every initial publication already
+            links.append([pos[l["dst"]], j, r, 0])
+        else:
+            links.append([pos[l["dst"]], j, gi, neps[gi]])
+            neps[gi] += 1
+            last[gi].append(None)
+    # evictions that already happened during connect: an output all of whose end points are push-based adapters has
+    # been pulled by every end point at its last initial publication
+    ret = [list(h) for h in nodes_hist]
+    for gi in range(len(out_index)):
+        if last[gi] and all(x is not None for x in last[gi]):
+            ret[gi] = nodes_hist[gi][-1:]
+    req["hist"], req["neps"], req["links"], req["relays"], req["last"], req["ret"] = nodes_hist, neps, links, relays, last, ret
     return req, order
